@@ -100,7 +100,9 @@ func (g *c12GateStore) Metadata(ctx context.Context, topics []string) (*metadata
 }
 
 func (g *c12GateStore) PutConsumerGroup(ctx context.Context, group *metadatapb.ConsumerGroup) error {
-	_ = g.gate(ctx, "PutConsumerGroup")
+	if err := g.gate(ctx, "PutConsumerGroup"); err != nil {
+		return err
+	}
 	return g.InMemoryStore.PutConsumerGroup(ctx, group)
 }
 
@@ -317,12 +319,19 @@ func (r *c12Run) restart() bool {
 		r.class("restart/skipped-persisted-group-preparing")
 		return false
 	}
+	if r.dirty {
+		// an injected write fault left the store behind the memory: what a restart does to such
+		// a group is C15's subject
+		r.class("restart/skipped-store-behind-after-write-fault")
+		return false
+	}
 	if rec != nil {
 		r.class("restart/persisted-" + rec.GetState())
 	}
 	pre := c12Peek(r.c)
 	r.observe(pre)
 	r.c.Stop()
+	r.unloaded = true
 	r.c = NewGroupCoordinator(r.gs, r.brk, &CoordinatorConfig{CleanupInterval: time.Duration(r.env.CleanupMs) * time.Millisecond})
 	synctest.Wait()
 	post := c12Peek(r.c)
@@ -331,6 +340,16 @@ func (r *c12Run) restart() bool {
 	r.res.feats["restart"] = true
 	r.observe(post)
 	return true
+}
+
+// writeFaulted runs one request whose first PutConsumerGroup fails with a transient error.
+func (r *c12Run) writeFaulted(f func()) {
+	arm := &c12GateArm{label: "PutConsumerGroup", nth: 1, fail: true}
+	r.gs.arm(arm)
+	r.ctx = context.WithValue(context.Background(), c12WorkerKey{}, "W")
+	f()
+	r.ctx = context.Background()
+	r.gs.arm(nil)
 }
 
 // faulted runs one request whose first FetchConsumerGroup fails with a transient error.
@@ -342,6 +361,7 @@ func (r *c12Run) faulted(f func()) {
 	r.ctx = context.Background()
 	r.gs.arm(nil)
 	if r.gs.wasHit(arm) {
+		r.unloaded = true // the load failed: the group is still only in the store
 		r.class("fault/fetch-consumer-group-failed-once")
 		r.res.feats["read-fault"] = true
 	}
